@@ -188,6 +188,17 @@ class Func(object):
             blk = Block(b, self)
             self.blocks[blk.id] = blk
         for b in self.blocks.values():
+            # `while (true)` / `for (;true;)` / `do ... while (1)`: the exit edge of a literally constant loop condition does not exist
+            # (the extractor keeps trivially-false edges so that `if (sizeof...)`-style branches stay visible; loops are pruned here)
+            t = b.term
+            if t and t.get("k") in ("while", "for", "do") and len(b.succs) == 2:
+                c = t.get("cond")
+                c = c[0] if isinstance(c, list) and len(c) == 1 else c
+                if c in ("true", "1"):
+                    b.succs[1] = None
+                elif c in ("false", "0"):
+                    b.succs[0] = None
+        for b in self.blocks.values():
             for s in b.succs:
                 if s is not None and s in self.blocks:
                     self.blocks[s].preds.append(b.id)
